@@ -15,7 +15,8 @@
 (***************************************************************************)
 EXTENDS Naturals, Integers, Sequences, FiniteSets, TLC, Json, IOUtils
 
-CONSTANTS MLanes, Remotes, Keys
+CONSTANTS MLanes, Remotes, Keys,
+          EnabledFindings   \* ids of the open known findings whose deviation actions are enabled
 
 Rec == ndJsonDeserialize(IOEnv.TRACE)
 
@@ -24,8 +25,12 @@ VARIABLES i,
           Hk,       \* [lane -> [key -> Seq(value | -1)]]   every value each key held
           clears,   \* [lane -> Seq([key -> position in Hk of that clear])]
           open, pend, lp, lastClear, replica, full, synced, win, adm, alive,
-          td        \* [lane -> <<>> | <<expected map>>]    outstanding take/drop expectation
-vars == <<i, M, Hk, clears, open, pend, lp, lastClear, replica, full, synced, win, adm, alive, td>>
+          td,       \* [lane -> <<>> | <<expected map>>]    outstanding take/drop expectation
+          sfresh,   \* [r][l] the outstanding sync was requested while r was neither linked nor linking
+          wupd,     \* [r][l] keys updated by the lane since the sync window opened
+          f5,       \* [r][l] keys excused as missing by known finding F5 (until r receives them)
+          swin      \* [r][l] keys for which r received an operation while its sync was outstanding
+vars == <<i, M, Hk, clears, open, pend, lp, lastClear, replica, full, synced, win, adm, alive, td, sfresh, wupd, f5, swin>>
 
 Has(e, f) == f \in DOMAIN e
 Max(a, b) == IF a > b THEN a ELSE b
@@ -46,6 +51,7 @@ StateFrom(maps) ==
     /\ replica' = RL(Empty) /\ full' = RL(FALSE) /\ synced' = RL(FALSE) /\ win' = RL(0)
     /\ adm' = RL([k \in Keys |-> {}]) /\ alive' = [r \in Remotes |-> TRUE]
     /\ td' = [l \in MLanes |-> <<>>]
+    /\ sfresh' = RL(FALSE) /\ wupd' = RL({}) /\ f5' = RL({}) /\ swin' = RL({})
 
 TraceInit ==
     /\ i = 1
@@ -55,7 +61,8 @@ TraceInit ==
     /\ replica = RL(Empty) /\ full = RL(FALSE) /\ synced = RL(FALSE) /\ win = RL(0)
     /\ adm = RL([k \in Keys |-> {}]) /\ alive = [r \in Remotes |-> TRUE]
     /\ td = [l \in MLanes |-> <<>>]
-    /\ TLCSet(1, 1)
+    /\ sfresh = RL(FALSE) /\ wupd = RL({}) /\ f5 = RL({}) /\ swin = RL({})
+    /\ TLCSet(1, 1) /\ TLCSet(2, {})
 
 \* earliest position p >= from of sequence s holding v (0 if none)
 Match(s, from, v) ==
@@ -75,7 +82,9 @@ Step(e) ==
     \/ /\ e.e = "op" /\ e.m \in {"upd", "rem"}
        /\ e.k \in Keys
        /\ LaneSet(e.lane, e.k, IF e.m = "upd" THEN e.v ELSE -1)
-       /\ UNCHANGED <<clears, open, pend, lp, lastClear, replica, full, synced, win, alive, td>>
+       /\ wupd' = [r \in Remotes |-> [x \in MLanes |->
+                      IF x = e.lane /\ win[r][x] > 0 /\ e.m = "upd" THEN wupd[r][x] \cup {e.k} ELSE wupd[r][x]]]
+       /\ UNCHANGED <<clears, open, pend, lp, lastClear, replica, full, synced, win, alive, td, sfresh, f5, swin>>
     \/ /\ e.e = "op" /\ e.m = "clr"
        /\ LET l == e.lane IN
           /\ M' = [M EXCEPT ![l] = Empty]
@@ -83,10 +92,10 @@ Step(e) ==
           /\ clears' = [clears EXCEPT ![l] = Append(@, [k \in Keys |-> Len(Hk[l][k]) + 1])]
           /\ adm' = [r \in Remotes |-> [x \in MLanes |->
                        IF x = l /\ win[r][x] > 0 THEN [k \in Keys |-> adm[r][x][k] \cup {-1}] ELSE adm[r][x]]]
-       /\ UNCHANGED <<open, pend, lp, lastClear, replica, full, synced, win, alive, td>>
+       /\ UNCHANGED <<open, pend, lp, lastClear, replica, full, synced, win, alive, td, sfresh, wupd, f5, swin>>
     \/ /\ e.e = "td"
        /\ td' = [td EXCEPT ![e.lane] = <<IF e.m = "take" THEN TakeOf(M[e.lane], e.n) ELSE DropOf(M[e.lane], e.n)>>]
-       /\ UNCHANGED <<M, Hk, clears, open, pend, lp, lastClear, replica, full, synced, win, adm, alive>>
+       /\ UNCHANGED <<M, Hk, clears, open, pend, lp, lastClear, replica, full, synced, win, adm, alive, sfresh, wupd, f5, swin>>
     \/ /\ e.e = "req" /\ e.op \in {"link", "sync"}
        /\ LET r == e.r  l == e.lane  fresh == ~open[r][l] /\ ~pend[r][l] IN
           /\ pend' = [pend EXCEPT ![r][l] = TRUE]
@@ -96,9 +105,12 @@ Step(e) ==
                THEN /\ win' = [win EXCEPT ![r][l] = @ + 1]
                     /\ adm' = [adm EXCEPT ![r][l] = IF win[r][l] = 0 THEN [k \in Keys |-> {M[l][k]}] ELSE @]
                ELSE UNCHANGED <<win, adm>>
-       /\ UNCHANGED <<M, Hk, clears, open, replica, full, synced, alive, td>>
+          /\ sfresh' = IF e.op = "sync" /\ win[r][l] = 0 THEN [sfresh EXCEPT ![r][l] = fresh] ELSE sfresh
+          /\ wupd' = IF e.op = "sync" /\ win[r][l] = 0 THEN [wupd EXCEPT ![r][l] = {}] ELSE wupd
+          /\ swin' = IF e.op = "sync" /\ win[r][l] = 0 THEN [swin EXCEPT ![r][l] = {}] ELSE swin
+       /\ UNCHANGED <<M, Hk, clears, open, replica, full, synced, alive, td, f5>>
     \/ /\ e.e = "req" /\ e.op = "unlink"
-       /\ UNCHANGED <<M, Hk, clears, open, pend, lp, lastClear, replica, full, synced, win, adm, alive, td>>
+       /\ UNCHANGED <<M, Hk, clears, open, pend, lp, lastClear, replica, full, synced, win, adm, alive, td, sfresh, wupd, f5, swin>>
     \/ /\ e.e = "frame" /\ e.kind = "linked"
        /\ LET r == e.r  l == e.lane IN
           /\ open' = [open EXCEPT ![r][l] = TRUE]
@@ -106,10 +118,10 @@ Step(e) ==
              ELSE /\ replica' = [replica EXCEPT ![r][l] = Empty]
                   \* a remote that links while the map is empty needs no sync to have the full state
                   /\ full' = [full EXCEPT ![r][l] = (M[l] = Empty)]
-       /\ UNCHANGED <<M, Hk, clears, pend, lp, lastClear, synced, win, adm, alive, td>>
+       /\ UNCHANGED <<M, Hk, clears, pend, lp, lastClear, synced, win, adm, alive, td, sfresh, wupd, f5, swin>>
     \/ /\ e.e = "frame" /\ e.kind = "event"
        /\ LET r == e.r  l == e.lane IN
-          IF ~open[r][l] THEN UNCHANGED <<lp, lastClear, replica>>     \* outside a link: C04's business
+          IF ~open[r][l] THEN UNCHANGED <<lp, lastClear, replica, f5, swin>>     \* outside a link: C04's business
           ELSE
             /\ ~Has(e, "bad")
             /\ \/ /\ e.m \in {"upd", "rem"} /\ e.k \in Keys
@@ -119,26 +131,54 @@ Step(e) ==
                      /\ p > 0           \* a value this key held, not older than what was already received
                      /\ lp' = [lp EXCEPT ![r][l][e.k] = p]
                      /\ replica' = [replica EXCEPT ![r][l][e.k] = v]
+                  /\ f5' = [f5 EXCEPT ![r][l] = @ \ {e.k}]
+                  /\ swin' = IF win[r][l] > 0 THEN [swin EXCEPT ![r][l] = @ \cup {e.k}] ELSE swin
                   /\ UNCHANGED lastClear
                \/ /\ e.m = "clr"
                   /\ LET C == {c \in (lastClear[r][l] + 1)..Len(clears[l]) :
-                                  \A k \in Keys : clears[l][c][k] >= lp[r][l][k]} IN
-                     /\ C # {}          \* a clear the lane performed, not overtaken by a newer update
-                     /\ LET c == CHOOSE c \in C : \A d \in C : c <= d IN
-                        /\ lastClear' = [lastClear EXCEPT ![r][l] = c]
-                        /\ lp' = [lp EXCEPT ![r][l] = [k \in Keys |-> clears[l][c][k]]]
+                                  \A k \in Keys : clears[l][c][k] >= lp[r][l][k]}
+                         \* Known finding F12 (deviation, only while listed as open): while r's sync is outstanding, a
+                         \* clear that the lane performed BEFORE values already delivered to r by that sync reaches r
+                         \* after them (the lane's event queue still held the clear when the sync started, and sync
+                         \* events carry current values).  Only keys delivered inside the sync window may be ahead.
+                         C12 == {c \in (lastClear[r][l] + 1)..Len(clears[l]) :
+                                   \A k \in Keys : clears[l][c][k] >= lp[r][l][k] \/ k \in swin[r][l]} IN
+                     IF C # {}
+                       THEN LET c == CHOOSE c \in C : \A d \in C : c <= d IN    \* a clear the lane performed,
+                            /\ lastClear' = [lastClear EXCEPT ![r][l] = c]       \* not overtaken by a newer update
+                            /\ lp' = [lp EXCEPT ![r][l] = [k \in Keys |-> clears[l][c][k]]]
+                       ELSE /\ "F12" \in EnabledFindings /\ win[r][l] > 0 /\ C12 # {}
+                            /\ LET c == CHOOSE c \in C12 : \A d \in C12 : c <= d IN
+                               /\ lastClear' = [lastClear EXCEPT ![r][l] = c]
+                               /\ lp' = [lp EXCEPT ![r][l] = [k \in Keys |-> Max(lp[r][l][k], clears[l][c][k])]]
+                            /\ TLCSet(2, TLCGet(2) \cup {"F12"})
                   /\ replica' = [replica EXCEPT ![r][l] = Empty]
-       /\ UNCHANGED <<M, Hk, clears, open, pend, full, synced, win, adm, alive, td>>
+                  /\ f5' = [f5 EXCEPT ![r][l] = {}]
+                  /\ swin' = swin
+       /\ UNCHANGED <<M, Hk, clears, open, pend, full, synced, win, adm, alive, td, sfresh, wupd>>
     \/ /\ e.e = "frame" /\ e.kind = "synced"
        /\ LET r == e.r  l == e.lane IN
-          /\ (open[r][l] /\ win[r][l] > 0) =>
-                \* C03: every key of the replica holds a value (or is absent) as the lane held it at some
-                \* moment between the sync request and now
-                \A k \in Keys : replica[r][l][k] \in adm[r][l][k]
+          /\ LET Bad == IF open[r][l] /\ win[r][l] > 0
+                           THEN {k \in Keys : replica[r][l][k] \notin adm[r][l][k]} ELSE {}
+                 \* Known finding F5 (deviation, only while listed as open): a remote that syncs WITHOUT having
+                 \* linked first misses a key that the lane UPDATED inside the sync window (the update's event was
+                 \* broadcast before the remote was linked and removed the key from its snapshot).  Only a
+                 \* missing key is excused, never a wrong value, and only under exactly these circumstances.
+                 Excused == {k \in Bad : /\ "F5" \in EnabledFindings /\ sfresh[r][l]
+                                         /\ replica[r][l][k] = -1 /\ k \in wupd[r][l]} IN
+             \* C03: every key of the replica holds a value (or is absent) as the lane held it at some
+             \* moment between the sync request and now
+             /\ Bad \subseteq Excused
+             \* every key updated inside the window that r still lacks may stay missing (same finding): it is
+             \* only excused later, at quiescence, if it is in fact still missing then
+             /\ f5' = [f5 EXCEPT ![r][l] = @ \cup Excused \cup
+                          (IF "F5" \in EnabledFindings /\ open[r][l] /\ win[r][l] > 0 /\ sfresh[r][l]
+                             THEN {k \in wupd[r][l] : replica[r][l][k] = -1} ELSE {})]
+             /\ (Excused # {} => TLCSet(2, TLCGet(2) \cup {"F5"}))
           /\ synced' = [synced EXCEPT ![r][l] = TRUE]
           /\ full' = IF open[r][l] /\ win[r][l] > 0 THEN [full EXCEPT ![r][l] = TRUE] ELSE full
           /\ win' = [win EXCEPT ![r][l] = IF @ > 0 THEN @ - 1 ELSE 0]
-       /\ UNCHANGED <<M, Hk, clears, open, pend, lp, lastClear, replica, adm, alive, td>>
+       /\ UNCHANGED <<M, Hk, clears, open, pend, lp, lastClear, replica, adm, alive, td, sfresh, wupd, swin>>
     \/ /\ e.e = "frame" /\ e.kind = "unlinked"
        /\ LET r == e.r  l == e.lane IN
           /\ open' = [open EXCEPT ![r][l] = FALSE]
@@ -146,18 +186,22 @@ Step(e) ==
           /\ win' = [win EXCEPT ![r][l] = 0]
           /\ synced' = [synced EXCEPT ![r][l] = FALSE]
           /\ full' = [full EXCEPT ![r][l] = FALSE]
-       /\ UNCHANGED <<M, Hk, clears, lp, lastClear, replica, adm, alive, td>>
+          /\ f5' = [f5 EXCEPT ![r][l] = {}]
+          /\ swin' = [swin EXCEPT ![r][l] = {}]
+       /\ UNCHANGED <<M, Hk, clears, lp, lastClear, replica, adm, alive, td, sfresh, wupd>>
     \/ /\ e.e = "mark"      \* some other request was sent (delimits the operations of a take / drop command)
-       /\ UNCHANGED <<M, Hk, clears, open, pend, lp, lastClear, replica, full, synced, win, adm, alive, td>>
+       /\ UNCHANGED <<M, Hk, clears, open, pend, lp, lastClear, replica, full, synced, win, adm, alive, td, sfresh, wupd, f5, swin>>
     \/ /\ e.e = "gone"
        /\ alive' = [alive EXCEPT ![e.r] = FALSE]
-       /\ UNCHANGED <<M, Hk, clears, open, pend, lp, lastClear, replica, full, synced, win, adm, td>>
+       /\ UNCHANGED <<M, Hk, clears, open, pend, lp, lastClear, replica, full, synced, win, adm, td, sfresh, wupd, f5, swin>>
     \/ /\ e.e = "quiescent"
        \* convergence: a drained, linked remote that holds the full state holds exactly the lane's map
        /\ \A x \in 1..Len(e.drained) : \A l \in MLanes :
              LET r == e.drained[x] IN
-             (alive[r] /\ open[r][l] /\ full[r][l]) => replica[r][l] = M[l]
-       /\ UNCHANGED <<M, Hk, clears, open, pend, lp, lastClear, replica, full, synced, win, adm, alive, td>>
+             (alive[r] /\ open[r][l] /\ full[r][l]) =>
+                \A k \in Keys : \/ replica[r][l][k] = M[l][k]
+                                \/ (k \in f5[r][l] /\ replica[r][l][k] = -1 /\ TLCSet(2, TLCGet(2) \cup {"F5"}))
+       /\ UNCHANGED <<M, Hk, clears, open, pend, lp, lastClear, replica, full, synced, win, adm, alive, td, sfresh, wupd, f5, swin>>
 
 \* a take / drop command has been processed once something other than its own lane operations is
 \* logged: the lane must then hold exactly the entries designated by the documented key order
@@ -170,7 +214,7 @@ TraceNext ==
        IF TDDue(e)
          THEN /\ TDOk(e)
               /\ td' = [l \in MLanes |-> IF ~(e.e = "op" /\ e.lane = l) THEN <<>> ELSE td[l]]
-              /\ UNCHANGED <<i, M, Hk, clears, open, pend, lp, lastClear, replica, full, synced, win, adm, alive>>
+              /\ UNCHANGED <<i, M, Hk, clears, open, pend, lp, lastClear, replica, full, synced, win, adm, alive, sfresh, wupd, f5, swin>>
          ELSE /\ Step(e)
               /\ i' = i + 1
               /\ TLCSet(1, Max(TLCGet(1), i + 1))
@@ -179,6 +223,6 @@ TraceSpec == TraceInit /\ [][TraceNext]_vars
 
 TraceAccepted ==
     LET m == TLCGet(1) IN
-    /\ PrintT(<<"TRACE_RESULT", ToJson([accepted |-> (m = Len(Rec) + 1), matched |-> m - 1, total |-> Len(Rec), kf |-> <<>>])>>)
+    /\ PrintT(<<"TRACE_RESULT", ToJson([accepted |-> (m = Len(Rec) + 1), matched |-> m - 1, total |-> Len(Rec), kf |-> TLCGet(2)])>>)
     /\ m = Len(Rec) + 1
 =============================================================================
